@@ -101,6 +101,21 @@ pub fn run(args: &Args) {
           out.found("C15", "diagnostic-from-unselected-rule", &key, json!({"meta": {"tags": tags, "excl": excl, "incl": incl, "selected": got, "src": df.src}, "stray": stray}));
         }
         out.count(if ds.is_empty() { "lint-under-selection=silent" } else { "lint-under-selection=reports" });
+        // "ordering them internally": the order in which the caller hands the rules over must not matter
+        let mut shuffled = got.clone();
+        rng.shuffle(&mut shuffled);
+        let mut rs = vec![];
+        for c in &shuffled {
+          rs.extend(rules_by_codes(&[c.clone()]));
+        }
+        let l2 = mk_linter(rs, &Words::default());
+        if let Outcome::Ok(ds2) = lint(&l2, &df.src, "ts") {
+          if ds2 != ds {
+            let only_sorted: Vec<_> = ds.iter().filter(|d| !ds2.contains(d)).map(|d| d.json()).collect();
+            let only_shuffled: Vec<_> = ds2.iter().filter(|d| !ds.contains(d)).map(|d| d.json()).collect();
+            out.found("C15", "result-depends-on-supplied-rule-order", &key, json!({"meta": {"tags": tags, "excl": excl, "incl": incl, "supplied_order": shuffled, "src": df.src}, "only_in_code_order": only_sorted, "only_in_supplied_order": only_shuffled}));
+          }
+        }
       }
     }
 
